@@ -411,6 +411,47 @@ def _first_output_const(fn, var='output'):
     return None
 
 
+def _emitted_head(ctx, fmt, ser):
+    """first line the serialiser emits, from its symbolic value on one region (the first '#...' string constant in
+    emission order); falls back to the syntactic search."""
+    from ..vg import App, Const, Tup, Ite, walk_terms, Obj, DictV
+    m = ctx.model
+    try:
+        if fmt == 'ds9':
+            from . import ds9
+            ser_, wfi, meta_fn = ds9.writer_funcs(m)
+            rec = DictV([{'frame': Const('image'), 'region': Const('circle(1,2,3)'), 'meta': DictV([{}])}])
+            from ..vg import Evaluator
+            ev = Evaluator(m, hooks={wfi.qualname: lambda e, a, k: rec})
+            out = ev.run(ser, [Tup((Obj('CirclePixelRegion', {}, 'r0', m.cls('CirclePixelRegion')),), 'list')], {})
+        else:
+            from .c11 import eval_writer
+            ser_, ev, out = eval_writer(m, m.cls('CircleSkyRegion'), 'fk5')
+        for pc, v in out.returns:
+            stack, seen = [v], []
+            # depth-first, left-to-right: emission order of concatenations / joins
+            while stack:
+                t = stack.pop(0)
+                if isinstance(t, Const) and isinstance(t.v, str) and t.v.lstrip().startswith('#'):
+                    return t.v.split('\n')[0] + ('\n' if '\n' in t.v else '')
+                if isinstance(t, App):
+                    stack = list(t.args) + stack
+                elif isinstance(t, Tup):
+                    stack = list(t.items) + stack
+                elif isinstance(t, Ite):
+                    stack = [t.a, t.b] + stack
+    except Exception:
+        pass
+    head = _first_output_const(ser.node)
+    if head is None:
+        for fi in m.all_functions():
+            if fi.path.startswith(f'regions/io/{fmt}/'):
+                h = _first_output_const(fi.node)
+                if h and h.startswith('#') and 'output' in norm(fi.node):
+                    return h
+    return head
+
+
 def r4(ctx):
     m = ctx.model
     for fmt in FORMATS:
@@ -443,16 +484,8 @@ def r4(ctx):
                 sig = st.value.value
         ctx.need(isinstance(sig, str), ident.qualname, 'signature constant not found')
         ser = m.registered('serialize', fmt)
-        head = _first_output_const(ser.node)
-        if head is None:
-            # follow one level of repo calls (crtf: _ShapeList.to_crtf)
-            for fi in m.all_functions():
-                if fi.path.startswith(f'regions/io/{fmt}/'):
-                    h = _first_output_const(fi.node)
-                    if h and h.startswith('#') and 'output' in norm(fi.node):
-                        head = h
-                        break
-        ctx.need(head is not None, ser.qualname, 'serialiser header constant not found')
+        head = _emitted_head(ctx, fmt, ser)
+        ctx.need(head is not None, ser.qualname, 'first line of the serialised text not determined')
         if head.startswith(sig):
             ctx.ok(f'{fmt}:signature', f'{sig!r} is a prefix of emitted header {head!r}')
         else:
